@@ -20,6 +20,10 @@ instructions with operations of length {3,12,23,24,40}, end comment).  Families:
      x group size 1..4 x source line split                              (asm, ctl, html)
   K  #LIST / #TABLE blocks (1-2 items / 1-2 rows x 2 cells, wrappable last column or not)
      in every position that formats them, with text before/after       (asm, html)
+  R  #TABLE with a header row (=h), a cell with =r2 / =r3 in a wrappable column whose text
+     wraps to fewer lines than the rowspan, exactly the rowspan, +1, +2 and +4 lines (at each
+     of the three widths), ordinary cells in the other rows and a =c2 cell, in the
+     description / start / mid-block / end comment, with text before/after (asm, html)
   N  line widths 31 and 24 (narrower than the longest word, so that one unbreakable word
      cannot fit in any comment position)                                (asm)
   H  a smaller length sweep for the entry pages                         (html)
@@ -186,8 +190,7 @@ BLOCK_CTX = ((0, 0), (1, 0), (0, 1), (1, 1))        # text before / after the bl
 BLOCK_POS = ('desc', 'reg', 'start', 'mid', 'end', 'icomment1', 'icomment2')
 
 
-def entry_block(kind, length, ctx, pos, salt):
-    blk = block_tokens(kind, length, salt)
+def entry_with_block(blk, tag, ctx, pos, salt):
     toks = (M.sentence(12, 'dense', salt + 2) if ctx[0] else []) + [blk] + (M.sentence(7, 'dense', salt + 3) if ctx[1] else [])
     plain = ['a', 'bb']
     e = dict(desc=[plain], regs=[('plain', '', 'A', plain)], start=[plain], mid=[plain], end=[plain], c1=plain, c2=plain)
@@ -207,8 +210,56 @@ def entry_block(kind, length, ctx, pos, salt):
         e['c2'] = toks
     g1 = M.Group((12,), e['c1'], mid=e['start'])
     g2 = M.Group((3, 24), e['c2'], mid=e['mid'])
-    return M.Entry({'block': kind, 'L': length, 'ctx': list(ctx), 'pos': pos}, ['a', 'bb'], desc=e['desc'], regs=e['regs'],
-                   groups=[g1, g2], end=e['end'])
+    return M.Entry(dict(tag, ctx=list(ctx), pos=pos), ['a', 'bb'], desc=e['desc'], regs=e['regs'], groups=[g1, g2], end=e['end'])
+
+
+def entry_block(kind, length, ctx, pos, salt):
+    return entry_with_block(block_tokens(kind, length, salt), {'block': kind, 'L': length}, ctx, pos, salt)
+
+
+# ---- family R: tables with a rowspan cell in a wrappable column, a colspan cell and a header row
+SPAN_FIXED = 17         # width of the table outside the wrappable column 0: 3 columns -> 3*3+1 border/padding characters,
+                        # columns 1 and 2 are 2 and 3 characters wide, and the comment prefix '; ' takes 2
+SPAN_POS = ('desc', 'start', 'mid', 'end')
+SPAN_CTX = ((0, 0), (1, 1))
+
+
+def span_lengths(rs):
+    """Cell text lengths that make the =r<rs> cell wrap to rs, rs+1, rs+2 and rs+4 lines at each of the three
+    line widths (middle of the last line, so that word boundaries do not matter), plus one that does not wrap."""
+    out = [5]
+    for w in WIDTHS3:
+        a = w - SPAN_FIXED
+        for t in (rs, rs + 1, rs + 2, rs + 4):
+            out.append((t - 1) * a + a // 2)
+    return sorted(set(out))
+
+
+def span_table(rs, length, style, salt):
+    text = M.sentence(length, style, salt)
+    rows = [(('=h', 'a'), ('=h', 'bb'), ('=h', 'a')),
+            (('=r{}'.format(rs),) + tuple(text), ('a',), ('bb',)),
+            (('bb',), ('a',))]
+    if rs == 3:
+        rows.append((('a',), ('w;x',)))
+    rows.append((('a', 'bb'), ('a',), ('bb',)))         # an ordinary row
+    rows.append((('=c2', 'bb', 'a'), ('w;x',)))           # a cell spanning columns 0-1
+    return ('T', (0,), tuple(rows))
+
+
+def entry_span(rs, length, style, ctx, pos, salt):
+    return entry_with_block(span_table(rs, length, style, salt), {'block': 'R{}'.format(rs), 'L': length, 'style': style}, ctx, pos, salt)
+
+
+def span_cell_lines(e, line_width, min_col):
+    """Generator-side estimate (own greedy wrap) of the number of lines the rowspan cell of a family-R entry needs."""
+    for para in e.desc + [p for g in e.groups for p in g.mid] + e.end:
+        for tok in para:
+            if M.is_block(tok) and tok[0] == 'T':
+                for r, c, rs, cs, h, words in M.table_cells(tok)[0]:
+                    if rs > 1:
+                        return rs, len(M.greedy_wrap(list(words), max(line_width - SPAN_FIXED, min_col)))
+    return None
 
 
 # ----------------------------------------------------------------------------- document keys
@@ -253,6 +304,13 @@ def doc_entries(key, seed, seam, stats=None):
                 for ctx in BLOCK_CTX:
                     for pos in BLOCK_POS:
                         ents.append(entry_block(kind, length, ctx, pos, salt))
+    elif fam == 'R':
+        for rs in (2, 3):
+            for length in span_lengths(rs):
+                for style in ('dense', 'mixed'):
+                    for ctx in SPAN_CTX:
+                        for pos in SPAN_POS:
+                            ents.append(entry_span(rs, length, style, ctx, pos, salt))
     else:
         raise ValueError(fam)
     lo = key.get('chunk', 0) * CHUNK if 'chunk' in key else 0
@@ -715,6 +773,12 @@ def work_list(tier, seed):
             if all(cfg[k] == ASM_DEFAULT[k] for k in ('tab', 'crlf', 'indent')):
                 work.append(('asm', key, cfg))
         work.append(('html', key, {}))
+    # R: rowspan / colspan / header tables
+    for key in chunked({'fam': 'R'}, seed, 'asm'):
+        for cfg in asm_cfgs:
+            if all(cfg[k] == ASM_DEFAULT[k] for k in ('tab', 'crlf', 'indent', 'instruction_width', 'comment_width_min')):
+                work.append(('asm', key, cfg))
+        work.append(('html', key, {}))
     # L: length sweep
     mod = 6 if quick else 2
     for w in WIDTHS3:
@@ -755,7 +819,7 @@ def _pos_name(pos):
 def _tags(seam, cfg, e, p):
     t = {'seam': seam, 'kind': p.kind, 'position': _pos_name(p.pos), 'line_width': cfg.get('line_width')}
     if e is not None:
-        for k in ('style', 'L', 'layout', 'n', 'block', 'pos', 'brace_text', 'brace_form'):
+        for k in ('style', 'L', 'layout', 'n', 'block', 'pos', 'ctx', 'brace_text', 'brace_form'):
             if k in e.tag:
                 t[k] = e.tag[k]
     for k, v in cfg.items():
@@ -777,6 +841,10 @@ def _shard(shard, nshards, tier, seed):
         stats.counters['fam_' + key['fam'] + '_' + seam] += len(ents)
         ctag = cfg_tag(cfg, ASM_DEFAULT if seam == 'asm' else CTL_DEFAULT) if seam != 'html' else ('single' if cfg.get('single_page') else 'pages')
         for e in ents:
+            if key['fam'] == 'R' and seam == 'asm':
+                rs, nl = span_cell_lines(e, cfg['line_width'], cfg.get('wrap_column_width_min', 10))
+                d = nl - rs
+                stats.counters['rowspan_cell_lines_' + ('below_rowspan' if d < 0 else 'rowspan_plus_%d' % d if d <= 2 else 'rowspan_plus_3_or_more')] += 1
             stats.state((seam, ctag, key['fam'], repr(sorted(e.tag.items()))))
             if len(e.groups[0].oplens) > 1 or any(M.is_block(t) for g in e.groups for t in g.comment) or e.tag.get('L', 0) >= cfg.get('line_width', 79) - 30:
                 stats.nontriv((seam, ctag, repr(sorted(e.tag.items()))))
@@ -856,6 +924,7 @@ def run(tier, seed):
               '(asm alternatives {}; ctl alternatives {}). B: every sequence of <= {} words over {{a,{{,}},x}}}} x group size 1..4 x 3 source line '
               'splits (asm at 3 widths; html{}; ctl x 3 widths x InstructionWidth/CommentWidthMin deviations). K: 6 block kinds x {} lengths x 4 '
               'contexts x 7 positions (asm x 3 widths x instruction-width/comment-width-min/wrap-column-width-min deviations; html). '
+              'R: rowspan {{2,3}} x 13 cell lengths x 2 styles x 2 contexts x 4 positions (asm x 3 widths x wrap-column-width-min deviations; html). '
               'N: 12 entries x line width {{31,24}} (asm). H: 3 styles x sentence lengths 0..{} x one in {} shapes, rotating (html).'.format(
                   3 * len(W_LENGTHS) * (4 if quick else 12), list(W_LENGTHS), 4 if quick else 12,
                   'every 6th (rotating with the length)' if quick else 'every 2nd (rotating with the length)', len(SHAPES),
@@ -876,7 +945,9 @@ def run(tier, seed):
             'documented minimum widths: the instruction field is at least as wide as the longest operation of the group (skool2asm) / entry '
             '(sna2skool) and the comment field at least comment-width-min / CommentWidthMin wide; lines up to that sum are not violations, '
             'but skool2asm must still warn about them',
-            'ASM tables are compared per column (cells of a column concatenated over rows), HTML tables per cell',
+            'ASM tables are compared per column: the words of the cells that start in a column, in row order, against the text found between '
+            'that column\'s border characters (a cell with a rowspan occupies its column in all the rows it spans, so this is a per-cell comparison '
+            'for it); HTML tables per cell',
             '#LIST/#TABLE blocks are generated for skool2asm / skool2html only',
             'words contain no digits, no "#", no "|" and never start with "." or "*" (so they cannot be taken for addresses, macros, table borders, '
             'paragraph separators or bullets)',
@@ -885,7 +956,9 @@ def run(tier, seed):
                          'group_comment_with_braces', 'brace_text_needs_extra_opening_braces', 'fam_W_asm', 'fam_W_ctl', 'fam_L_asm', 'fam_L_ctl',
                          'asm_word_longer_than_comment_field', 'ctl_word_longer_than_comment_field', 'asm_operation_wider_than_line',
                          'asm_comment_ends_with_brace_in_group', 'ctl_comment_ends_with_brace_in_group', 'html_group_gt1', 'html_block_in_comment',
-                         'fam_B_asm', 'fam_B_ctl', 'fam_B_html', 'fam_K_asm', 'fam_K_html', 'fam_N_asm', 'fam_H_html'],
+                         'fam_B_asm', 'fam_B_ctl', 'fam_B_html', 'fam_K_asm', 'fam_K_html', 'fam_N_asm', 'fam_H_html', 'fam_R_asm', 'fam_R_html',
+                         'rowspan_cell_lines_below_rowspan', 'rowspan_cell_lines_rowspan_plus_0', 'rowspan_cell_lines_rowspan_plus_1',
+                         'rowspan_cell_lines_rowspan_plus_2', 'rowspan_cell_lines_rowspan_plus_3_or_more'],
     )
     return stats, meta
 
